@@ -14,7 +14,7 @@ ASSUMPTIONS = ["the differential comparisons are tests (they exhibit failing inp
                "running code by the observed process state"]
 
 HERE = os.path.dirname(os.path.dirname(os.path.abspath(__file__)))
-KINDS = ["stock", "future", "mixed", "t0", "noreinvest", "fail", "analyser", "initpos", "rebalance", "splithold"]
+KINDS = ["stock", "future", "mixed", "t0", "noreinvest", "fail", "analyser", "initpos", "rebalance", "splithold", "roundprice"]
 
 
 def run_job(specs, switches, hashseed):
@@ -42,7 +42,8 @@ def run(ctx):
         if kind == "initpos":
             hist = [{"seed": rnd.randrange(1, 10 ** 6), "kind": "future"}, {"seed": rnd.randrange(1, 10 ** 6), "kind": "stock"}]   # directed: a futures-trading run earlier in the process
         if kind == "decsell":
-            hist = [{"seed": rnd.randrange(1, 10 ** 6), "kind": "splithold"}, {"seed": rnd.randrange(1, 10 ** 6), "kind": "stock"}]   # directed: an earlier run carried a holding over a split
+            # directed: an earlier run carried a holding over a split, another rounded limit prices to the tick (both work with the decimal module)
+            hist = [{"seed": rnd.randrange(1, 10 ** 6), "kind": "splithold"}, {"seed": rnd.randrange(1, 10 ** 6), "kind": "roundprice"}]
         if t == 0:
             hist = [{"seed": rnd.randrange(1, 10 ** 6), "kind": "t0"}, {"seed": rnd.randrange(1, 10 ** 6), "kind": "future"}]      # directed: T+0 then futures-only before a default stock run
         h1, h2 = rnd.randrange(1, 1000), rnd.randrange(1000, 2000)
